@@ -187,6 +187,12 @@ impl<'a> AnnotationCsv<'a> {
                             let res: &TextResource = store.get(*res).expect("resource must exist");
                             out += res.id().expect("resource must have an id");
                         }
+                        Selector::RangedAnnotationSelector { .. } => {
+                            //these expand to multiple entries in the other columns, the entries stay empty in this one
+                            for _ in 1..subselector.iter(store, false).count() {
+                                out.push(';');
+                            }
+                        }
                         _ => {}
                     }
                 }
@@ -214,6 +220,13 @@ impl<'a> AnnotationCsv<'a> {
                             let dataset: &AnnotationDataSet =
                                 store.get(*dataset).expect("dataset must exist");
                             out += dataset.id().expect("dataset must have an id");
+                        }
+                        Selector::RangedTextSelector { .. }
+                        | Selector::RangedAnnotationSelector { .. } => {
+                            //these expand to multiple entries in the other columns, the entries stay empty in this one
+                            for _ in 1..subselector.iter(store, false).count() {
+                                out.push(';');
+                            }
                         }
                         _ => {}
                     }
@@ -249,6 +262,13 @@ impl<'a> AnnotationCsv<'a> {
                             let key: &DataKey =
                                 dataset.get(*key).expect("key must exist");
                             out += key.id().expect("key must have an id");
+                        }
+                        Selector::RangedTextSelector { .. }
+                        | Selector::RangedAnnotationSelector { .. } => {
+                            //these expand to multiple entries in the other columns, the entries stay empty in this one
+                            for _ in 1..subselector.iter(store, false).count() {
+                                out.push(';');
+                            }
                         }
                         _ => {}
                     }
@@ -289,6 +309,13 @@ impl<'a> AnnotationCsv<'a> {
                                 out += id;
                             } else {
                                 out += data.temp_id().expect("temp_id must succeed").as_str();
+                            }
+                        }
+                        Selector::RangedTextSelector { .. }
+                        | Selector::RangedAnnotationSelector { .. } => {
+                            //these expand to multiple entries in the other columns, the entries stay empty in this one
+                            for _ in 1..subselector.iter(store, false).count() {
+                                out.push(';');
                             }
                         }
                         _ => {}
@@ -335,6 +362,12 @@ impl<'a> AnnotationCsv<'a> {
                                 out += id;
                             } else {
                                 out += &ann.temp_id().expect("temp_id must succeed");
+                            }
+                        }
+                        Selector::RangedTextSelector { .. } => {
+                            //these expand to multiple entries in the other columns, the entries stay empty in this one
+                            for _ in 1..subselector.iter(store, false).count() {
+                                out.push(';');
                             }
                         }
                         _ => {}
